@@ -1,16 +1,18 @@
 #!/bin/bash
-# Applies each behaviour-preserving patch under /verif/neutral to a scratch worktree and runs all checks:
-# every one must stay silent (development aid; not a registered check).
+# Applies each behaviour-preserving patch (default: /verif/neutral/*.diff, or the files given) to a scratch
+# worktree and runs all checks: every one must stay silent (development aid; not a registered check).
 export GOFLAGS=-mod=mod GOPROXY=off GOSUMDB=off GOTOOLCHAIN=local PATH=/opt/veriftools/go1.26.8/bin:$PATH; unset GOWORK
 WT=/tmp/neutralwt.$$; OUT=/tmp/neutralout.$$
 git -C /repo worktree add --detach "$WT" HEAD >/dev/null 2>&1 || exit 2
 mkdir -p "$OUT"; cp /verif/known_findings.json "$OUT/"
 trap 'git -C /repo worktree remove --force "$WT" >/dev/null 2>&1; rm -rf "$OUT"' EXIT
 rc=0
-for f in /verif/neutral/*.diff; do
-  git -C "$WT" checkout -- . ; git -C "$WT" apply "$f" 2>/dev/null || { echo "SKIP (does not apply): $f"; continue; }
+FILES=("$@"); [ ${#FILES[@]} -eq 0 ] && FILES=(/verif/neutral/*.diff)
+for f in "${FILES[@]}"; do
+  git -C "$WT" checkout -- . ; git -C "$WT" clean -fdq; git -C "$WT" apply "$f" 2>/dev/null || { echo "SKIP (does not apply): $f"; continue; }
   (cd "$WT" && go build ./... ) || { echo "SKIP (does not build): $f"; continue; }
-  n=$(/verif/bin/ykcheck -repo "$WT" -verif "$OUT" -property all 2>&1 | grep -cE "\[violation\]|\[undecided\]")
-  echo "$(basename $f): $n alarms"; [ "$n" != "0" ] && rc=1
+  res=$(${YKCHECK:-/verif/bin/ykcheck} -repo "$WT" -verif "$OUT" -property all 2>&1 | grep -E "\[violation\]|\[undecided\]")
+  n=$(printf "%s" "$res" | grep -c .)
+  echo "$f: $n alarms"; [ "$n" != "0" ] && { rc=1; printf "%s\n" "$res" | cut -c1-420; }
 done
 exit $rc
